@@ -287,6 +287,7 @@ def run(chk):
     else:
         jobs = mle_jobs(shapes, PARAMS, ["u16", "u32"], 4)
     mle_part(chk, jobs, chk.seed, "grid")
+    huge_part(chk)
     chk.cov["exhaustive"] = True
     chk.cov["explanation"] = ("counting estimators: exhaustive over all pairs of sequences over 3 symbols with lengths "
                               "1..%d (including unequal lengths), each replayed into all 8 entry points and all element "
@@ -295,9 +296,31 @@ def run(chk):
     chk.cov["mle_shapes"] = len(shapes)
 
 
+def huge_part(chk, report=True):
+    """float-typed free estimators on sketches of 2^24 + 4097 positions: identical -> exactly 1, five positions differ ->
+    exactly (n - 5) / n (a count kept in single precision stops at 2^24)"""
+    out = os.path.join(chk.wd, "huge.json")
+    harness("c14", ["huge", "out=" + out], timeout=1500)
+    cases = json.load(open(out))["cases"]
+    bad = [c for c in cases if c["outcome"] != "exact"]
+    chk.add("evaluations", len(cases))
+    if report:
+        for c in bad:
+            chk.violation(dict(kind="huge", fn=c["fn"], outcome=c["outcome"], differing=c["differing"]), dict(kind="huge", case=c))
+    log("[C14] sketches of %d positions: %d calls of the float-typed free estimators, %d not exact" % (cases[0]["len"], len(cases), len(bad)))
+    return bad
+
+
 def replay(chk, path):
     sc = json.load(open(path))["scenario"]
     build_harness("c14")
+    if sc["kind"] == "huge":
+        bad = [c for c in huge_part(chk, report=False) if c["fn"] == sc["case"]["fn"] and c["differing"] == sc["case"]["differing"]]
+        for c in bad:
+            log(json.dumps(c))
+        if bad:
+            log("VIOLATION property=C14 replay=%s" % path)
+        return 1 if bad else 0
     if sc["kind"] == "count":
         if sc.get("pair"):
             tf, rows, rej = count_part(chk, [sc["pair"]], 0, 0, sc["seed"], "replay", report=False)
